@@ -1,22 +1,22 @@
 /* model_libc.c -- the few libc routines std::char_traits lowers to (straight C loops). */
 #include "vp_rt.h"
 uint8_t *vpx_memchr(uint8_t *s, uint32_t c, uint64_t n) {
-  for (uint64_t i = 0; i < n; i++) if (s[i] == (uint8_t)c) return s + i;
+  for (uint64_t i = 0; i < n; i++) { VP_ACCESS(s + i, 1); if (s[i] == (uint8_t)c) return s + i; }
   return 0;
 }
 uint32_t vpx_memcmp(uint8_t *a, uint8_t *b, uint64_t n) {
-  for (uint64_t i = 0; i < n; i++) if (a[i] != b[i]) return a[i] < b[i] ? (uint32_t)-1 : 1;
+  for (uint64_t i = 0; i < n; i++) { VP_ACCESS(a + i, 1); VP_ACCESS(b + i, 1); if (a[i] != b[i]) return a[i] < b[i] ? (uint32_t)-1 : 1; }
   return 0;
 }
 uint32_t vpx_bcmp(uint8_t *a, uint8_t *b, uint64_t n) { return vpx_memcmp(a, b, n); }
-uint64_t vpx_strlen(uint8_t *s) { uint64_t n = 0; while (s[n]) n++; return n; }
+uint64_t vpx_strlen(uint8_t *s) { uint64_t n = 0; for (;;) { VP_ACCESS(s + n, 1); if (!s[n]) break; n++; } return n; }
 /* wide char_traits helpers (wchar_t is 32-bit here) */
-uint64_t vpx_wcslen(uint32_t *s) { uint64_t n = 0; while (s[n]) n++; return n; }
-uint32_t *vpx_wmemcpy(uint32_t *d, uint32_t *s, uint64_t n) { for (uint64_t i = 0; i < n; i++) d[i] = s[i]; return d; }
+uint64_t vpx_wcslen(uint32_t *s) { uint64_t n = 0; for (;;) { VP_ACCESS(s + n, 4); if (!s[n]) break; n++; } return n; }
+uint32_t *vpx_wmemcpy(uint32_t *d, uint32_t *s, uint64_t n) { vp_memcpy_u32(d, s, n * 4); return d; }
 uint32_t *vpx_wmemmove(uint32_t *d, uint32_t *s, uint64_t n) { vp_memmove_u32(d, s, n * 4); return d; }
-uint32_t *vpx_wmemset(uint32_t *d, uint32_t c, uint64_t n) { for (uint64_t i = 0; i < n; i++) d[i] = c; return d; }
+uint32_t *vpx_wmemset(uint32_t *d, uint32_t c, uint64_t n) { if (n) VP_ACCESS(d, n * 4); for (uint64_t i = 0; i < n; i++) d[i] = c; return d; }
 uint32_t vpx_wmemcmp(uint32_t *a, uint32_t *b, uint64_t n) {
-  for (uint64_t i = 0; i < n; i++) if (a[i] != b[i]) return (int32_t)a[i] < (int32_t)b[i] ? (uint32_t)-1 : 1;
+  for (uint64_t i = 0; i < n; i++) { VP_ACCESS(a + i, 4); VP_ACCESS(b + i, 4); if (a[i] != b[i]) return (int32_t)a[i] < (int32_t)b[i] ? (uint32_t)-1 : 1; }
   return 0;
 }
-uint32_t *vpx_wmemchr(uint32_t *s, uint32_t c, uint64_t n) { for (uint64_t i = 0; i < n; i++) if (s[i] == c) return s + i; return 0; }
+uint32_t *vpx_wmemchr(uint32_t *s, uint32_t c, uint64_t n) { for (uint64_t i = 0; i < n; i++) { VP_ACCESS(s + i, 4); if (s[i] == c) return s + i; } return 0; }
